@@ -378,7 +378,30 @@ def run(ctx, prj: Project):
                 "end" if isinstance(got, list) and [g[0] for g in got] == [w[0] for w in want] else "selection"
             ctx.viol("R6", f"find_all/{kind}", fi.site(), findall_model.describe(div))
     except (Unknown, PyRaise) as e:
-        ctx.info(f"find_all not evaluable on the abstract model ({e}); falling back to the structural rules")
+        ctx.info(f"find_all not evaluable on the abstract model ({e}); evaluating it through the engine on concrete patterns")
+    # find_all through the repo's own engine on concrete patterns and sequences (always, as a second view; it is the deciding one
+    # when the abstract attempts could not stand in for this form of Pattern)
+    try:
+        from .c13 import corpus
+        trees = [t for t in corpus(False) if t.op != "atom" and not t.nullable()]
+        trees = trees[::max(1, len(trees) // (24 if ctx.tier == "thorough" else 8))]
+        L = 4 if ctx.tier == "thorough" else 3
+        import itertools as _it
+        seqs = [list(w) for k in range(1, L + 1) for w in _it.product("ab", repeat=k)]
+        cases, cdiv = findall_model.concrete(prj, trees, seqs)
+        if cdiv is not None:
+            p_, w_, got_, want_ = cdiv
+            ctx.viol("R6", "find_all/concrete", fi.site(), f"find_all({p_!r}, [{' '.join(w_)}]) {'reports ' + str(got_) if isinstance(got_, list) else got_}; required {want_} "
+                                                        f"(start order, disjoint also at the end of input, only accepting attempts that cannot continue, exclusive ends)")
+            explored = explored or (0, cases)
+        else:
+            ctx.ok("R6", fi.site(), f"find_all through the interpreted engine agrees with the reference on {cases} (pattern, sequence) pairs "
+                                    f"({len(trees)} non-nullable trees x all sequences over {{a, b}} up to length {L})")
+            ctx.obligations += cases
+            ctx.discharged += cases
+            explored = explored or (0, cases)
+    except (Unknown, PyRaise) as e:
+        ctx.info(f"find_all not evaluable through the engine either ({type(e).__name__}: {e})")
     sites = _append_sites(fi)
     if explored is not None:
         rule_R2(ctx, prj, fi, sites, structural=False)
